@@ -34,7 +34,7 @@ ASSUMPTIONS = ['amplifier bands are read from the loaded equipment library (f_mi
 REQUIRED_COUNTERS = {'stock_tests_run': 5, 'stock_element_identity_checks': 300, 'launch_filter_checks': 40, 'element_identity_checks': 300, 'multiband_partition_checks': 20,
                      'order_independence_checks': 15, 'invalid_spectrum_checks': 10, 'edge_channels': 20}
 CASE_TIMEOUT = {'quick': 400, 'thorough': 1800}
-FLAVS = ['multiband', 'multiband_gen', 'narrow', 'mesh', 'multiband_gen', 'multiband', 'narrow', 'invalid']
+FLAVS = ['multiband', 'multiband_gen', 'narrow', 'mesh', 'multiband_gen', 'multiband', 'narrow', 'invalid', 'wide_mixed']
 
 
 def plan(tier, seed):
@@ -246,7 +246,18 @@ def run_case(case, ctx):
     flav = case['flavour']
     if flav == 'invalid':
         return run_invalid(case, ctx)
-    if flav == 'narrow':
+    if flav == 'wide_mixed':
+        # some links amplified by a single wide-band model (one band over L and C), the others by C+L multiband
+        # amplifiers: whichever is crossed first, the common band of a route is the intersection of all of them
+        from vf.props.c15 import build_mixed
+        from gnpy.core.exceptions import NetworkTopologyError, ConfigurationError
+        try:
+            scen = build_mixed(rng, wide=True)
+        except (NetworkTopologyError, ConfigurationError) as e:
+            ctx.reject(f'{type(e).__name__}: {str(e)[:120]}')
+            return
+        SimParams.set_params({})
+    elif flav == 'narrow':
         scen = build_narrow(rng)
         SimParams.set_params({})
     else:
@@ -263,7 +274,7 @@ def run_case(case, ctx):
             continue
         amps = [n for n in path if isinstance(n, (Edfa, Multiband_amplifier))]
         edges = sorted({e for am in amps for b in amp_bands_of(am) for e in b})
-        multiband = flav.startswith('multiband')
+        multiband = flav.startswith('multiband') or flav == 'wide_mixed'
         f_lo, f_hi = (186.2e12, 196.4e12) if multiband else (190.9e12, 196.5e12)
         carriers = edge_carriers(rng, edges, f_lo, f_hi)
         if rng.random() < 0.15 and multiband and carriers:
